@@ -1215,6 +1215,10 @@ def r103(ctx: Ctx) -> RuleReport:
     # (b) _make_sort_key
     mk = ctx.repo.func('penman.__main__', '_make_sort_key')
     lookups = [n for n in walk_local(mk.node) if isinstance(n, ast.Assign) and isinstance(n.value, ast.Call) and norm(n.value.func) == 'getattr' and len(n.value.args) >= 2]
+    # (func := getattr(model, name, None)) in a condition binds the same way
+    for n in walk_local(mk.node):
+        if isinstance(n, ast.NamedExpr) and isinstance(n.value, ast.Call) and norm(n.value.func) == 'getattr' and len(n.value.args) >= 2 and isinstance(n.target, ast.Name):
+            lookups.append(ast.copy_location(ast.Assign(targets=[ast.Name(id=n.target.id, ctx=ast.Store())], value=n.value, lineno=n.lineno), n))
     if len(lookups) != 1 and _r103_pairs_form(ctx, rep, mk):
         return rep
     if len(lookups) != 1:
@@ -1248,6 +1252,10 @@ def r103(ctx: Ctx) -> RuleReport:
     if rets:
         r = rets[0]
         first_is_func = any(f.parent is mk and f.name == norm(r.value.elts[0]) for f in ctx.repo.all_functions())
+        e0_ = r.value.elts[0]
+        if not first_is_func and isinstance(e0_, ast.Call) and norm(e0_.func) in ('partial', 'functools.partial') and e0_.args and isinstance(e0_.args[0], ast.Name) \
+                and ctx.repo.maybe_func('penman.__main__', e0_.args[0].id) is not None:
+            first_is_func = True            # functools.partial(<module-level key function>, <the functions>)
         rep.add(f'{mk.fq}: returns (sort function, keyword flags)', mk.loc(r), 'ok' if first_is_func else 'violation',
                 '' if first_is_func else f'returns ({norm(r.value.elts[0])}, {norm(r.value.elts[1])}): the caller unpacks (key, kwargs), so the dict is used as the sort key and the function as **kwargs')
     return rep
